@@ -9,11 +9,20 @@
   * `rw_inv`, `no_conflict` : in every interleaving of Lock/Unlock/RLock/RUnlock operations of any
     number of threads on a sync.RWMutex, two different threads that both follow the discipline are
     never simultaneously at conflicting accesses (one of them a write) of the same field.
+  * `lastmod_any_schedule`, `lastmod_sequential`, `lastmod_order_irrelevant` : the recorded "configuration last modified"
+    time of a profile URL (`DOH.updateLastMod`: a look under the read lock, then compare-and-store under the write lock)
+    after ANY interleaving of any number of handlers is the one every sequential order records — the newest; so a cached
+    reply served afterwards is one a sequential order serves.  `lastmod_unchecked_store_loses_update` : without the
+    comparison under the write lock an interleaving records an older time (the reply no sequential order gives).
+    `gen_lastmod_update_atomic` : the regenerated CFG of updateLastMod has that shape (every store holds the write lock and
+    follows a read made since it was taken).
   Not carried by the model (partial): the Go memory model itself; instance identity of locks; the
   second half of the statement (replies linearizable) is covered by C01's concurrent harness only.
 -/
 import NV.Model.Lockset
 import NV.Gen.Lockset
+import NV.Lemmas.LastMod
+import NV.Gen.LastMod
 namespace NV.C15
 open NV.Lockset
 
@@ -90,5 +99,64 @@ theorem no_conflict (m : RW) (h : RW.Reach m) (t1 t2 : Nat) (hne : t1 ≠ t2) (a
 example : ({ ty := "T", field := "f", kind := .write, mode := .r, fresh := false, site := "" } : Access).guarded = false := rfl
 example : ∃ m, RW.Reach m ∧ m.modeOf 1 = .r ∧ m.modeOf 2 = .r :=
   ⟨_, .step (.step .init (o := .rlock 1) rfl) (o := .rlock 2) rfl, by decide, by decide⟩
+
+/-! ### `updateLastMod`: concurrent handlers record what a sequential order records -/
+
+section LastMod
+open NV.LastMod
+
+/-- **C15 (replies of some sequential order, last-modified table)**: `ts i` = the time announced to handler `i`, `sched` = any
+interleaving of the handlers' two critical sections (look under RLock; compare-and-store under Lock) in which exactly the
+handlers `threads` take part and finish.  The time recorded at the end is the one every sequential order records. -/
+theorem lastmod_any_schedule (ts : Nat → Nat) (cur0 : Nat) (sched threads : List Nat)
+    (honly : ∀ i, i ∈ sched → i ∈ threads)
+    (hdone : ∀ i, i ∈ threads → (run ts (init cur0) sched).ph i = .done) :
+    (run ts (init cur0) sched).cur = newest cur0 ts threads :=
+  NV.LastModL.any_schedule ts cur0 sched threads honly hdone
+
+/-- one handler after the other, in any order: `newest` is what is recorded -/
+theorem lastmod_sequential (ts : Nat → Nat) (cur0 : Nat) (order : List Nat) :
+    (run ts (init cur0) (sequential order)).cur = newest cur0 ts order :=
+  NV.LastModL.lastmod_sequential ts cur0 order
+
+/-- … and it does not depend on the order -/
+theorem lastmod_order_irrelevant (ts : Nat → Nat) (cur0 : Nat) (order order' : List Nat) (h : order.Perm order') :
+    newest cur0 ts order = newest cur0 ts order' := by
+  rw [← lastmod_sequential ts cur0 order']
+  exact (lastmod_any_schedule ts cur0 (sequential order') order
+    (fun i hi => h.symm.subset (NV.LastModL.mem_sequential order' i hi))
+    (fun i hi => NV.LastModL.sequential_all_done ts order' _ i (h.subset hi))).symm
+
+/-- nothing recorded is ever lost: the recorded time never goes back, whatever the schedule (also a partial one) -/
+theorem lastmod_monotone (ts : Nat → Nat) (cur0 : Nat) (sched : List Nat) : cur0 ≤ (run ts (init cur0) sched).cur :=
+  (NV.LastModL.run_inv ts cur0 (fun _ => True) sched (init cur0) (fun _ _ => trivial) (NV.LastModL.init_inv ts cur0 _)).1
+
+def tsW : Nat → Nat := fun i => if i = 0 then 2 else 1
+
+/-- what the comparison under the write lock is for: storing unconditionally after the look (check-then-act), handler 1
+(announced time 1) looks, handler 0 (time 2) looks and stores, handler 1 stores: time 1 is recorded, although both
+sequential orders record 2. -/
+theorem lastmod_unchecked_store_loses_update :
+    (runNA tsW (init 0) [1, 0, 0, 1]).cur = 1 ∧ (runNA tsW (init 0) [1, 0, 0, 1]).ph 0 = .done ∧
+    (runNA tsW (init 0) [1, 0, 0, 1]).ph 1 = .done ∧ newest 0 tsW [0, 1] = 2 ∧ newest 0 tsW [1, 0] = 2 := by
+  decide
+
+/-- non-vacuity of `lastmod_any_schedule`: the same interleaving on the code as it is meets the hypotheses and records 2 -/
+example : (∀ i, i ∈ [1, 0, 0, 1] → i ∈ [0, 1]) ∧ (run tsW (init 0) [1, 0, 0, 1]).ph 0 = .done ∧
+    (run tsW (init 0) [1, 0, 0, 1]).ph 1 = .done ∧ (run tsW (init 0) [1, 0, 0, 1]).cur = 2 := by decide
+
+/-- **regenerated**: in the control-flow graph of `(*DOH).updateLastMod` every store into the table happens with the write
+lock held (`lmLocked`: acquired by `mu.Lock()`, released by `mu.Unlock()`) and after a read of the table made since the
+last lock release (`lmFresh`), on every path; the extraction saw the store(s). -/
+theorem gen_lastmod_update_atomic :
+    NV.CFG.check Gen.LastMod.lmLocked_strict Gen.LastMod.lmLocked Gen.LastMod.lmLocked_cert Gen.LastMod.lmLocked_init = true ∧
+    NV.CFG.check Gen.LastMod.lmFresh_strict Gen.LastMod.lmFresh Gen.LastMod.lmFresh_cert Gen.LastMod.lmFresh_init = true ∧
+    Gen.LastMod.lmLocked_init = (0, 0) ∧ Gen.LastMod.lmFresh_init = (0, 0) ∧
+    1 ≤ Gen.LastMod.stores ∧
+    (Gen.LastMod.lmLocked.filter fun b => b.evs.contains .need).length = Gen.LastMod.stores ∧
+    (Gen.LastMod.lmFresh.filter fun b => b.evs.contains .need).length = Gen.LastMod.stores := by
+  decide
+
+end LastMod
 
 end NV.C15
